@@ -488,6 +488,7 @@ package wire
 
 //@ func Load
 //@   ensures result.0 != nil ==> result.0.Fset != nil || len(result.0.Sets) == 0
+//@   atnew Injector requires [C19] callsFit(calls, out)
 
 // ---------------------------------------------------------------------------
 // C18: what wire itself contributes to "regeneration depends only on current sources"
@@ -793,3 +794,13 @@ package wire
 //@ func processFieldsOf
 //@   lensures [C12] result.1 == nil ==> len(fields) == len(call.Args) - 1 && forall k :: 0 <= k && k < len(fields) ==> fields[k] != nil && fields[k].Parent == structPtr.Elem() && (call.Args[k + 1] is *ast.BasicLit) && fields[k].Name == unquote(call.Args[k + 1].(*ast.BasicLit).Value) && fieldOut(fields[k], struc, isPtrToStruct)
 //@   loop 1 invariant [C12] 1 <= i && i <= len(call.Args) && len(fields) == i - 1 && forall k :: 0 <= k && k < len(fields) ==> fields[k] != nil && fields[k].Parent == structPtr.Elem() && (call.Args[k + 1] is *ast.BasicLit) && fields[k].Name == unquote(call.Args[k + 1].(*ast.BasicLit).Value) && fieldOut(fields[k], struc, isPtrToStruct)
+
+// C19: check and show accept an injector (record it in Info.Injectors) only under the condition under
+// which gen reaches code generation for it (the precondition of injectPass, C09): every call that
+// returns a cleanup function or an error is matched by the injector's signature.
+//@ define callsFit(calls []call, sig outputSignature) = forall k :: 0 <= k && k < len(calls) ==> (calls[k].hasCleanup ==> sig.cleanup) && (calls[k].hasErr ==> sig.err)
+//@ func verifyCalls
+//@   requires fset != nil && forall k :: 0 <= k && k < len(calls) ==> calls[k].out != nil && (calls[k].kind == 2 ==> calls[k].valueTypeInfo != nil && calls[k].valueExpr != nil)
+//@   ensures [C19] len(result) == 0 ==> callsFit(calls, sig)
+//@   loop 1 invariant ec != nil
+//@   loop 1 invariant [C19] len(ec.errors) == 0 ==> forall k :: 0 <= k && k < done ==> (calls[k].hasCleanup ==> sig.cleanup) && (calls[k].hasErr ==> sig.err)
